@@ -276,7 +276,7 @@ def run(cfg, chooser):
                     return delayed(task)(i, q.c)
 
             ticks = -1 if cfg.get("timeout") is None else int(round(cfg["timeout"] / 0.01))
-            ev(ev="CallStart", c=callno, n=n, mode=MODES[cfg["mode"]], nj=nj, maxb=maxb, pre=pre,
+            ev(ev="CallStart", legacy=not rc, c=callno, n=n, mode=MODES[cfg["mode"]], nj=nj, maxb=maxb, pre=pre,
                bound=pre + 2 * nj * maxb, slack=(2 if serial else 1 + nj + 2), ticks=ticks, serial=serial)
             idle[0] = 0
             kind = None; ei = -1
